@@ -230,8 +230,8 @@ CLAIMED["C15"] = {
             "opaque sub-expressions, which yields the emitted instruction sequence as a word over code(child) and instruction names (e.g. `<lhs> store_fast "
             "<rhs> load_fast fast_rev2 bin_op`). On that word: code(left) precedes code(right), each occurs exactly once, `&&`/`||` have a store_skip and "
             "`or` a jmp_not_nil between their operands; literal elements and map pairs are laid down in list order (iterator scripted with two elements); "
-            "call arguments are compiled by arguments.iter() -> flat_map(compile) -> collect with no reversal. Two known findings: compound assignment "
-            "to an index / field target evaluates the right-hand side first. Not decided: skip counts (jump arithmetic), non-interference of later code "
+            "call arguments are compiled by arguments.iter() -> flat_map(compile) -> collect with no reversal; the skip count of && / || equals the number of instructions laid down after the right operand plus one. Two known findings: compound assignment "
+            "to an index / field target evaluates the right-hand side first. Not decided: jump arithmetic in general (C09), non-interference of later code "
             "with earlier values, argument order as seen by the callee.",
     "technique": "static analysis: abstract interpretation of the code generators' MIR to symbolic instruction sequences, order / multiplicity rules on the sequences",
     "design_ref": "DESIGN.md §5 C15, §9.1",
